@@ -1,5 +1,7 @@
 import Dashu.Driver.Loop
 import Dashu.Model.Mem.Pool
+import Dashu.Model.Mem.Arith
+import Dashu.Model.Mem.Memory
 /-
   Driver of group `mem` (C17).
     mem.buf  <tok>…   buffer/Repr-level history: the ledger model is stepped op by op; per step the
@@ -28,6 +30,7 @@ def slotStr : Slot → String
   | .empty => "e"
   | .buf b => "b" ++ toString b.len ++ "/" ++ toString b.cap ++ "/" ++ wsStr b.ws
   | .rep r => "r" ++ (if r.isNeg then "-" else "") ++ toString r.capacity ++ "/" ++ toString r.len ++ "/" ++ wsStr r.words
+  | .stat ws neg => "s" ++ (if neg then "-" else "") ++ toString ws.length ++ "/" ++ toString ws.length ++ "/" ++ wsStr ws
 
 def evsStr (es : List Event) : String :=
   let parts := es.filterMap fun
@@ -71,6 +74,12 @@ def parseOp (tok : String) : Option Op :=
   | ["neg", k] => do pure (.neg (← k.toNat?))
   | ["asslice", k] => do pure (.asSlice (← k.toNat?))
   | ["drop", k] => do pure (.drop (← k.toNat?))
+  | ["static", k, ws, s] => do
+    pure (.fromStaticWords (← k.toNat?) (← parseWs ws) (← if s = "1" then some true else if s = "0" then some false else none))
+  | ["bview", k, j] => do pure (.bufFromView (← k.toNat?) (← j.toNat?))
+  | ["pusht", k, j, lo] => do pure (.pushTailFrom (← k.toNat?) (← j.toNat?) (← lo.toNat?))
+  | ["over", k, ws] => do pure (.overwrite (← k.toNat?) (← parseWs ws))
+  | ["ist", k] => do pure (.intoSignTyped (← k.toNat?))
   | _ => none
 
 /-- canonical token of a panic: every `assert!`/`debug_assert!` of buffer.rs / repr.rs is `assert` -/
@@ -97,7 +106,7 @@ def applyEvs (st : St) (es : List Event) : St :=
 def inPool (op : Op) : Bool :=
   op.target < R && (match op with
     | .bufClone _ j | .repClone _ j | .pushSliceFrom _ j | .cloneFromSliceFrom _ j
-    | .bufCloneFrom _ j | .repCloneFrom _ j => j < R
+    | .bufCloneFrom _ j | .repCloneFrom _ j | .bufFromView _ j | .pushTailFrom _ j _ => j < R
     | _ => true)
 
 def isIllTyped : Fault → Bool
@@ -245,6 +254,98 @@ def valHistory (toks : List String) : Option String :=
     let fin := "fin:" ++ ",".intercalate (P.map fun | some v => intToHex v | none => "e")
     some (ok (" ".intercalate (out.toList ++ [fin, "end:live=0:dfree=0"])))
 
+-- ------------------------------------------------------------------ arithmetic skeletons
+
+/-- run a list of ops silently; `none` if any fails -/
+def runQuiet (W mx : Nat) (st : St) (ops : List Op) : Option St :=
+  ops.foldlM (fun st op =>
+    let o := step W mx st.P op st.n
+    let st := applyEvs { st with n := o.next } o.evs
+    match o.res with
+    | .ok P' => some { st with P := P' }
+    | .error _ => none) st
+
+/-- run skeleton ops collecting the allocator events; `Except` = an op of the skeleton faulted -/
+def runFrag (W mx : Nat) (st : St) (ops : List AOp) : Except String (St × List Event) :=
+  ops.foldlM (fun (acc : St × List Event) a =>
+    let st := acc.1
+    let o := step W mx st.P a.toOp st.n
+    let st := applyEvs { st with n := o.next } o.evs
+    match o.res with
+    | .ok P' => .ok ({ st with P := P' }, acc.2 ++ o.evs)
+    | .error f => .error (faultStr f ++ "@" ++ reprStr a)) (st, [])
+
+def sortedDrops (es : List Event) : String :=
+  let ds := es.filterMap fun | .free _ c => some c | _ => none
+  let ds := ds.toArray.qsort (· < ·) |>.toList
+  if ds.isEmpty then "." else ",".intercalate (ds.map fun c => "D" ++ toString c)
+
+def parseForm : String → Option Form
+  | "rr" => some .rr | "rv" => some .rv | "vr" => some .vr | "vv" => some .vv | _ => none
+
+def arith (W : Nat) (op form a b : String) : Option String := do
+  let mx := maxCap W
+  let x ← parseNat a
+  let xs := natWords W x
+  let frag ← (match op with
+    | "add" => do let y ← parseNat b; pure (fragAdd W (← parseForm form) xs (natWords W y), some (natWords W y))
+    | "sub" => do let y ← parseNat b; pure (fragSub W (← parseForm form) xs (natWords W y), some (natWords W y))
+    | "mul" => do let y ← parseNat b; pure (fragMul W 30 (← parseForm form) xs (natWords W y), some (natWords W y))
+    | "shl" => do
+      let k ← parseDecNat b
+      let byVal ← (if form = "v" then some true else if form = "r" then some false else none)
+      pure (fragShl W mx byVal xs k, none)
+    | "shr" => do
+      let k ← parseDecNat b
+      let byVal ← (if form = "v" then some true else if form = "r" then some false else none)
+      pure (fragShr W byVal xs k, none)
+    | _ => none : Option (Frag × Option (List Nat)))
+  let (fr, ys) := frag
+  let st0 : St := ⟨Pool.empty, Ledger.empty, 0, true, 0, #[]⟩
+  let setup : List Op := [.fromWords 0 xs, .fromBuffer 0] ++
+    (match ys with | some ys => [.fromWords 1 ys, .fromBuffer 1] | none => [])
+  let st ← runQuiet W mx st0 setup
+  match runFrag W mx st fr.ops with
+  | .error e => pure (ok ("!model-frag-fault " ++ e))
+  | .ok (st, evs1) =>
+    match runFrag W mx st fr.cleanup with
+    | .error e => pure (ok ("!model-frag-fault " ++ e))
+    | .ok (st, evs2) =>
+      let head := match fr.panic with
+        | some k => "!" ++ k.name
+        | none => slotStr (st.P fr.res)
+      let o := run W mx (dropAll R) st.P st.n
+      let st := applyEvs { st with n := o.next } o.evs
+      let live := st.L.liveCount st.n
+      let body := head ++ "|" ++ evsStr (evs1 ++ evs2) ++ " end:" ++ sortedDrops o.evs ++ ":live=" ++ toString live ++ ":dfree=0"
+      if st.safe then pure (ok body ++ " #safe=1") else pure (ok body ++ " !model-unsafe-trace")
+
+-- ------------------------------------------------------------------ memory.rs bump allocator
+
+/-- `mem.bump d:<total bytes> <k>:<count> …`: `MemoryAllocation::new(size = total, align = 16)` then a chain
+    of nested `allocate_slice_fill::<T_k>(count, 0)` with `T_k` = u8,u16,u32,u64,u128 (size = align = 2^k);
+    prints `off,len` (bytes, relative to the allocation start) per slice and the final remainder, or
+    `nomem@i` when request i hits `expect("internal error: not enough memory allocated")` -/
+def bump (W : Nat) (args : List String) : Option String := do
+  match args with
+  | [] => none
+  | tot :: reqs =>
+    let total ← parseDecNat tot
+    let rs ← reqs.mapM fun t => match t.splitOn ":" with
+      | [k, c] => do
+        let k ← k.toNat?
+        let c ← c.toNat?
+        if k ≤ 4 then some (⟨2 ^ k, 2 ^ k, c⟩ : Bump.Req) else none
+      | _ => none
+    let usz := 2 ^ W - 1
+    let rec go (m : Bump.Chunk) (i : Nat) (acc : List String) : List Bump.Req → String
+      | [] => " ".intercalate (acc.reverse ++ ["rem:" ++ toString m.start ++ "," ++ toString (m.stop - m.start)])
+      | r :: rs =>
+        match Bump.allocateSlice usz m r with
+        | none => " ".intercalate (acc.reverse ++ ["nomem@" ++ toString i])
+        | some ((s, e), _, rest) => go rest (i + 1) ((toString s ++ "," ++ toString (e - s)) :: acc) rs
+    pure (ok (go ⟨0, total⟩ 0 [] rs))
+
 -- ------------------------------------------------------------------ dispatch
 
 def dispatch : Dispatch := fun W op args =>
@@ -255,6 +356,8 @@ def dispatch : Dispatch := fun W op args =>
     let n ← parseDecNat n
     let mx := maxCap W
     pure (ok (toString (defaultCapacity mx n) ++ " " ++ toString (maxCompactCapacity mx n) ++ " " ++ toString mx))
+  | "mem.arith", [o, f, a, b] => arith W o f a b
+  | "mem.bump", args => bump W args
   | "mem.miri", _ :: _ => some (ok "miri=clean")
   | _, _ => none
 
